@@ -428,9 +428,13 @@ def getAtomsAux (natoms : Option Nat) : Nat → List String → List (String × 
           else getAtomsAux natoms fuel rest ((t, none) :: acc)
         | [] => getAtomsAux natoms fuel [] ((t, none) :: acc)
 
+/-- `_get_atoms`: the loop, then (repair of F-C13-7) a `--` that is still among the remaining
+tokens of a fixed-arity line means that more atoms than expected precede it: IOError. -/
 def getAtoms (natoms : Option Nat) (toks : List String) :
     Option (List (String × Option String) × List String) :=
-  getAtomsAux natoms (toks.length + 1) toks []
+  match getAtomsAux natoms (toks.length + 1) toks [] with
+  | none => none
+  | some (atoms, rest) => if natoms.isSome && rest.contains "--" then none else some (atoms, rest)
 
 /-- the atom part of `_base_parser`: delimiter count, `_get_atoms`, arity check -/
 def baseAtoms (natoms : Option Nat) (toks : List String) :
